@@ -459,7 +459,9 @@ try:
         rw = amodel.RayWeights({"txp": w()}, {"rxp": w()}, {}, {}, {"txp": ang(), "rxp": ang()})
         nmat = 12
         smat = rng.standard_normal((nmat, nmat)) + 1j * rng.standard_normal((nmat, nmat))
-        sfunc = lambda a, b: np.cos(a) + 2j * np.sin(2 * b) + 0.5
+        # a polynomial: + and * are correctly rounded element by element, whereas numpy's vectorised cos/sin may
+        # round differently in the SIMD body and in the scalar tail of a loop (a harness artefact seen at 4001 points)
+        sfunc = lambda a, b: (0.25 * a) * a + 2j * ((0.5 * b) - a * b) + 0.5
         weights = rng.uniform(0.5, 2.0, len(tx))
         for kind, scattering in (("function", {"LL": sfunc}), ("matrix", {"LL": smat})):
             hashes = [h(a) for a in (rw.tx_ray_weights_dict["txp"], rw.rx_ray_weights_dict["rxp"], smat, weights)]
